@@ -4,8 +4,8 @@ package chainsim
 // once), C18 (send), C36 (gov). Written in the direction the properties state.
 
 import (
-	"sort"
 	"fmt"
+	"sort"
 	"strings"
 	"time"
 
